@@ -805,14 +805,25 @@ impl Sim {
                 self.op();
             }
             Step::PreSpawn { client, slot, kill, gap, early } => {
-                if !self.cfg.prespawn || client >= nclients || slot >= nslots || !self.authorized(client) {
+                if !self.cfg.prespawn || client >= nclients || slot >= nslots || !self.clients[client].connected {
                     return;
                 }
                 if self.slots[slot].is_some() {
                     return;
                 }
-                let local = self.clients[client].app.world_mut().spawn_empty().id();
                 let id = self.clients[client].id;
+                if !self.authorized(client) {
+                    // Custom authorization: "if you want to map entities before enabling replication, you need to insert
+                    // this component, already filled with entities" - the game prepares the map, authorizes later.
+                    if self.cfg.auth != 1 || self.cfg.vis == 2 {
+                        return;
+                    }
+                    if self.server.world().get::<ClientEntityMap>(id).is_none() {
+                        self.server.world_mut().entity_mut(id).insert(ClientEntityMap::default());
+                    }
+                    self.flags.insert("mapping_prepared_before_authorization");
+                }
+                let local = self.clients[client].app.world_mut().spawn_empty().id();
                 let e = if early && self.cfg.vis != 2 {
                     // not replicated yet: a later `Marker{on}` makes it visible
                     self.server.world_mut().spawn_empty().id()
